@@ -110,7 +110,7 @@ void __wrap___cxa_guard_abort(void* g) { __real___cxa_guard_abort(g); --sched::t
 
 // libc functions with hidden static state: a call from library code on two different threads is shared mutable state
 // the load/store monitor cannot see (it lives in libc), so the calls themselves are recorded (link-time --wrap)
-namespace unsafe { static uint32_t callers[16]; static const char* names[16] = { "inet_ntoa", "localtime", "gmtime", "ctime", "asctime", "strtok", "rand", "strerror", "gethostbyname", "ether_ntoa", "getservbyname", "setlocale" };
+namespace unsafe { static uint32_t callers[16]; static const char* names[16] = { "inet_ntoa", "localtime", "gmtime", "ctime", "asctime", "strtok", "rand", "strerror", "gethostbyname", "ether_ntoa", "getservbyname", "setlocale", "HMAC(md=NULL)", "SHA1(md=NULL)", "MD5(md=NULL)" };
     static inline void note(int i) { if (mon::on && mon::tl_logical >= 0) callers[i] |= 1u << mon::tl_logical; } }
 #include <arpa/inet.h>
 #include <netdb.h>
@@ -129,6 +129,11 @@ struct hostent* __real_gethostbyname(const char*); struct hostent* __wrap_gethos
 char* __real_ether_ntoa(const struct ether_addr*); char* __wrap_ether_ntoa(const struct ether_addr* a) { unsafe::note(9); return __real_ether_ntoa(a); }
 struct servent* __real_getservbyname(const char*, const char*); struct servent* __wrap_getservbyname(const char* a, const char* b) { unsafe::note(10); return __real_getservbyname(a, b); }
 char* __real_setlocale(int, const char*); char* __wrap_setlocale(int c, const char* l) { unsafe::note(11); return __real_setlocale(c, l); }
+// OpenSSL one-shot digests write into a function-static buffer when the caller passes no output buffer (documented as not thread safe)
+unsigned char* __real_HMAC(const void*, const void*, int, const unsigned char*, size_t, unsigned char*, unsigned int*);
+unsigned char* __wrap_HMAC(const void* e, const void* k, int kl, const unsigned char* d, size_t n, unsigned char* md, unsigned int* ml) { if (!md) unsafe::note(12); return __real_HMAC(e, k, kl, d, n, md, ml); }
+unsigned char* __real_SHA1(const unsigned char*, size_t, unsigned char*); unsigned char* __wrap_SHA1(const unsigned char* d, size_t n, unsigned char* md) { if (!md) unsafe::note(13); return __real_SHA1(d, n, md); }
+unsigned char* __real_MD5(const unsigned char*, size_t, unsigned char*); unsigned char* __wrap_MD5(const unsigned char* d, size_t n, unsigned char* md) { if (!md) unsafe::note(14); return __real_MD5(d, n, md); }
 }
 
 // symbol covering an address of the executable's static storage (reads .symtab of /proc/self/exe)
@@ -292,7 +297,7 @@ struct ThrEngine : Engine {
             else if (read_syms.size() < 64) { uint32_t r = e.readers; if (r & (r - 1)) read_syms.insert(static_symbol(e.a << 3)); } }
         for (auto& s : read_syms) st.inc("probe.static_read_by_2+_threads." + s.substr(0, 60));
         if (!shared.empty()) { std::string first = *shared.begin(); for (char& c : first) if (c == ' ') c = '_'; std::string all; for (auto& s : shared) all += s + "; "; return Verdict::bad("thr:shared-write:" + first, "hidden shared mutable state inside libtins, written by one thread and accessed by another: " + all); }
-        for (int i = 0; i < 12; ++i) { uint32_t m = unsafe::callers[i]; if (m) st.inc(std::string("probe.libc_call.") + unsafe::names[i]); if (m & (m - 1)) return Verdict::bad(std::string("thr:unsafe-libc:") + unsafe::names[i], std::string("library code called ") + unsafe::names[i] + "(), which keeps hidden static state, from more than one thread"); }
+        for (int i = 0; i < 15; ++i) { uint32_t m = unsafe::callers[i]; if (m) st.inc(std::string("probe.libc_call.") + unsafe::names[i]); if (m & (m - 1)) return Verdict::bad(std::string("thr:unsafe-libc:") + unsafe::names[i], std::string("library code called ") + unsafe::names[i] + "(), which keeps hidden static state, from more than one thread"); }
         // (b) result equality
         for (int t = 0; t < K; ++t) { tr.add(fmt("thread %d seq=%llx con=%llx", t, (unsigned long long)seq[t], (unsigned long long)con[t])); if (seq[t] != con[t]) { std::string kinds; std::set<std::string> ks; for (auto& k : ops[t]) ks.insert(k.str("op")); for (auto& s : ks) kinds += s + ","; return Verdict::bad("thr:result-differs", fmt("thread %d (ops: %s) computed other results under interleaving than alone", t, kinds.c_str())); } }
         uint64_t wsig = 0; for (auto& l : p.steps) wsig = mix64(wsig, fnv1a(KV(l).str("op")));
